@@ -223,8 +223,16 @@ def run(f, fixture, rep, cfg, tier):
                 for (w, i) in b.mut_borrow_calls(l):
                     if w.decl == "std::io::Write::flush" and i == 0:
                         via_q = any(isinstance(u[2], tuple) and b.call_at(u[0]).decl == "std::ops::Try::branch" for u in b.uses(w.dest["l"])) or w.dest["l"] == 0
+                        # ... or handed back as the function's result, converted: `out.flush().map_err(Error::from)`
+                        ret_conv = False
+                        for u in b.uses(w.dest["l"]):
+                            if isinstance(u[2], tuple):
+                                uc = b.call_at(u[0])
+                                if uc.decl.endswith("Result::<T, E>::map_err") and uc.dest["l"] in b.return_aliases() and not uc.dest["p"]:
+                                    ret_conv = True
+                        via_q = via_q or ret_conv
                         oks = set(ok_assign_blocks(b))
-                        dominates_ok = all(b.dominates(w.bb, o) for o in oks) if oks else w.dest["l"] == 0
+                        dominates_ok = all(b.dominates(w.bb, o) for o in oks) if oks else (w.dest["l"] == 0 or ret_conv)
                         if via_q and dominates_ok:
                             flushed = True
             rep.check(flushed, "R6", "%s|bufwriter-flushed" % fmt_key(b.path), "%s flushes its BufWriter and propagates the error" % fmt_key(b.path),
